@@ -36,7 +36,14 @@ pub enum Case {
 
 fn strategy(tier: Tier) -> BoxedStrategy<Case> {
     prop_oneof![
-        300 => tree::opts_tree_strategy(TreeCfg::full()).prop_map(|(opts, tree)| Case::Single { opts, tree }),
+        300 => (tree::opts_tree_strategy(TreeCfg::full()), prop::option::weighted(0.3, (any::<u16>(), any::<u16>()))).prop_map(|((opts, mut tree), twins)| {
+            // in three cases of ten two files are equal in every respect: they are written as
+            // hard links of one another (see tree::set_link_twins)
+            if let Some((i, j)) = twins {
+                tree::make_twins(&mut tree, i, j);
+            }
+            Case::Single { opts, tree }
+        }),
         1 => tree::wide_strategy(tier == Tier::Thorough).prop_map(|(opts, tree)| Case::Single { opts, tree }),
         100 => history_strategy(hist_cfg(tier)).prop_map(Case::Hist),
         40 => (
@@ -322,7 +329,16 @@ fn run(case: &Case, cx: &mut Cx) -> CaseResult {
         Case::Hist(h) => (&h.initial, h.ops.clone()),
         Case::Changing { .. } => unreachable!(),
     };
+    struct Unlink;
+    impl Drop for Unlink {
+        fn drop(&mut self) {
+            tree::set_link_twins(false);
+        }
+    }
+    let _unlink = Unlink;
+    tree::set_link_twins(matches!(case, Case::Single { .. }));
     let mut w = World::new(&cx.scratch, initial);
+    tree::set_link_twins(false);
     if let Case::Hist(h) = case {
         w.first_band_id = h.first_band_id;
     }
